@@ -7,6 +7,7 @@ from .. import paths
 from ..core import FUNC, call_attr, calls_in, const, dotted, is_const, kwarg, norm, text, walk_local
 
 EXPLANATION = [
+    'C15.store-key-verbatim: shared with C13: JsonKeyStore addresses entries by the unmodified name in update / get / delete.',
     "C15.device-namespace: JsonKeyStore.from_device uses the device's random address as namespace whenever it differs from the ANY_RANDOM placeholder (no further condition on its sub-type).",
     'C15.key-lookup: PairingKeys.key_from_dict looks its dictionary up only under the member name it was given (an absent member is not filled from another one).',
     'C15.filename-resolved: JsonKeyStore canonicalises a configured file name with symbolic links followed (resolve / realpath), which the atomic os.replace in save() relies on.',
@@ -362,7 +363,13 @@ def device_namespace(ctx):
         R.check(ok, rule, f'{K}.JsonKeyStore.from_device | condition', 'used whenever it differs from ANY_RANDOM', f'the random address names the namespace only if `{[norm(t) for t, _ in g]}`: a device whose random address does not satisfy it shares the default namespace, which load() aliases to the single namespace of a shared file - its updates and deletions land in another device\'s entries', p.loc(s_))
 
 
+def store_key_verbatim_rule(ctx):
+    from .c13 import store_key_verbatim
+    store_key_verbatim(ctx, 'C15.store-key-verbatim')
+
+
 RULES = [
+    ('C15.store-key-verbatim', store_key_verbatim_rule),
     ('C15.device-namespace', device_namespace),
     ('C15.key-lookup', key_lookup),
     ('C15.filename-resolved', filename_resolved),
